@@ -248,6 +248,8 @@ def keyof(rec, f):
         key.update(rec.get('exc', {}) if isinstance(rec.get('exc'), dict) else {})
         basic = set('+ - * & | ^ << >> a>> <<< >>> == parity ! slice compose cond mem'.split())
         key['ops'] = ','.join(sorted(set(re.sub(r'[0-9]+', '', o) for o in min_op(rec['e']) if o not in basic)))
+        if key.get('exc') == 'KeyError' and key.get('key'):
+            key['ops'] = re.sub(r'[0-9]+', '', key.pop('key'))       # the operator that has no evaluator
     else:
         key['root'] = rec['e']['k'] + ':' + rec['e'].get('o', '')
         key['nargs'] = len(rec['e'].get('a', []))
